@@ -1,7 +1,7 @@
 CONFIG = dict(
-    coqfiles=["Props/C16.v", "Props/C16N.v"],
+    coqfiles=["Props/C16.v", "Props/C16N.v", "Props/C16C.v"],
     n_quick=12000, n_thorough=600000, workers_quick=8,
-    sub=["C16N"],
+    sub=["C16N", "C16C"],
     rule="object of 0-24 bytes under one of the 8 digest functions (12% with a digest whose size or hash is wrong); a STACK of 1-3 WithErrorHandler decorators (35% depth >= 2) "
          "over an original buffer and 0-3 replacement buffers, each carrying the object (12%: truncated / extended / one byte changed / unrelated) cut into <= 8 chunks incl. empty chunks, "
          "an I/O error at a random event position in every buffer but the last; buffer kinds: CAS chunk-reader buffer, CAS reader buffer (EOF attached to data or on its own call), "
@@ -18,6 +18,6 @@ CONFIG = dict(
               "in run_stack replacement buffers are plain buffers; replacements that are themselves casErrorHandlingBuffers (WithErrorHandler around a stream, to any depth) are the sub-check C16N (Buffer/EHNest.v, harness/c16n.go), whose cases are folded into this check",
               "validated byte slices handed to WithErrorHandler/returned by OnError are trusted by the code; the monitor's validity clauses apply when they hold content that is valid for the digest",
               "io.CopyN and io.ReadFull drop an error that a reader returns together with the bytes completing their request; scripted readers that attach an error to data and do not repeat it are excluded from the cases (attached EOF is included)",
-              "NewValidatedBufferFromReaderAt is not modelled; ToProto/CloneStream/WithTask not modelled",
+              "NewValidatedBufferFromReaderAt is not modelled; ToProto/WithTask not modelled; CloneStream() of a buffer with an error handler is the sub-check C16C (Run/R16C.v, harness/c16c.go), whose cases are folded into this check",
               "the order of Done/Close calls relative to each other is not observed, only their number per handler / per source"],
 )
